@@ -30,7 +30,7 @@ TABLE = {
 }
 
 
-def check_bound(ob: Ob, fn, f, me, line: int) -> None:
+def check_bound(ob: Ob, fn, f, me, line: int, amb_value=None) -> None:
     amb, plain = TABLE[fn.name]
     if op(f) != "bound":
         ob.violate(fn.qualname, where(fn, line), f"{fn.name} maps `{show(f)[:60]}` over the column, not the scalar method with strict/passthrough bound", detail="callable-shape")
@@ -70,6 +70,11 @@ def check_bound(ob: Ob, fn, f, me, line: int) -> None:
         x, y = (a, b) if pol else (b, a)
         if meth(x) != amb or meth(y) != plain:
             ob.violate(fn.qualname, where(fn, line), f"{fn.name} uses self.{meth(x)} when ambiguous and self.{meth(y)} otherwise; expected {amb} / {plain}", detail="scalar")
+    elif amb_value is not None:
+        # the choice was made by an if/else statement: this path fixes `ambiguous`
+        want = amb if amb_value else plain
+        if meth(target) != want:
+            ob.violate(fn.qualname, where(fn, line), f"{fn.name} uses `{show(target)[:50]}` when ambiguous is {amb_value}; expected self.{want}", detail="scalar")
     else:
         ob.violate(fn.qualname, where(fn, line), f"{fn.name} maps `{show(target)[:50]}` regardless of `ambiguous`; expected self.{amb} if ambiguous else self.{plain}", detail="scalar")
 
@@ -81,6 +86,8 @@ def d1(cx: Cx, ob: Ob) -> None:
         s = cx.summary(fn, ob.id)
         me = ("param", fn.self_name)
         found = False
+        from ..rules import flag_values
+
         if name.startswith("pd_"):
             for ev, ctx in s.distinct_events("store"):
                 if op(ev.a) == "item" and ev.a[1] == ("param", "df"):
@@ -88,7 +95,7 @@ def d1(cx: Cx, ob: Ob) -> None:
                     if op(v) == "call" and callee_name(v) in ("map", "apply") and v[2]:
                         found = True
                         ob.site(f"{where(fn, ev.line)} {fn.qualname}", show(v[2][0])[:90])
-                        check_bound(ob, fn, v[2][0], me, ev.line)
+                        check_bound(ob, fn, v[2][0], me, ev.line, flag_values(ctx, ("ambiguous",)).get("ambiguous"))
                     else:
                         ob.undecide(f"{name}: column is computed by `{show(v)[:60]}`")
                         found = True
@@ -97,7 +104,7 @@ def d1(cx: Cx, ob: Ob) -> None:
                 found = True
                 f = c[2][0] if c[2] else dict(c[3]).get("func")
                 ob.site(f"{where(fn, ev.line)} {fn.qualname}", show(f)[:90])
-                check_bound(ob, fn, f, me, ev.line)
+                check_bound(ob, fn, f, me, ev.line, flag_values(ctx, ("ambiguous",)).get("ambiguous"))
                 kw = dict(c[3])
                 for p in ("path", "column", "sep", "header"):
                     if kw.get(p) != ("param", p):
